@@ -10,6 +10,7 @@ import io
 import os
 import sys
 import shutil
+import math
 import struct
 import warnings
 import wave
@@ -71,6 +72,14 @@ def gen_case(r, quick):
         # by truncation would lose a sample per window there
         rate, W = r.choice(FRAGILE)
         aw = (W + 0.5) / rate
+    if r.random() < 0.1:
+        # a window duration whose product with the rate is the largest double below a whole number n: the window is
+        # floor(aw * rate) = n - 1 samples, however close to n the product is
+        n_ = r.randint(2, 9)
+        aw = n_ / rate
+        while aw * rate >= n_:
+            aw = math.nextafter(aw, 0.0)
+        W = int(aw * rate)
     nwin = r.randint(0, 25 if quick else 60)
     faint = r.random() < 0.15
     data, pattern, act = synth(r, rate, w, ch, W, nwin, r.random() < 0.5, faint)
@@ -82,6 +91,16 @@ def gen_case(r, quick):
         "drop_trailing_silence": r.random() < 0.5,
         "strict_min_dur": r.random() < 0.5,
     }
+    if r.random() < 0.12 and not faint:
+        # the input IS one burst about as long as min_dur: one window short of it, exactly it, or completed by a partial last window
+        k = r.randint(1, 4)
+        params["min_dur"] = k * aw
+        params["max_dur"] = (k + r.randint(1, 4)) * aw
+        n = r.choice([k * W, (k - 1) * W, (k - 1) * W + r.randint(1, W), k * W + 1])
+        loud = {1: 100, 2: 3000, 4: 300000}[w]
+        vals = [(loud if (i + c) % 2 == 0 else -loud) for i in range(n) for c in range(ch)]
+        data = struct.pack("<%d%s" % (len(vals), FMT[w]), *vals)
+        pattern, act = [1] * (-(-n // W)), 0
     eth = r.choice([0, 0, 5, -10, -150]) if faint else {1: 30, 2: 50, 4: 90}[w]
     uc = r.choice([None, "any", "mix", act, act - ch, 0, "avg"]) if ch > 1 else r.choice([None, "mix", 0, 7])
     return dict(rate=rate, w=w, ch=ch, W=W, aw=aw, data=data, params=params, eth=eth, uc=uc, pattern=pattern)
@@ -348,9 +367,14 @@ def run(prop, tier):
                 # the same statement when the audio comes from a file (raw and wav, read at once or window by window)
                 if len(todo) and (len(cases) // 2) % 3 == 0 and len(cs["data"]) < 200000:
                     raw_p = os.path.join(tmpd, "c05.raw"); wav_p = os.path.join(tmpd, "c05.wav")
-                    open(raw_p, "wb").write(cs["data"])
-                    with wave.open(wav_p, "wb") as f:
-                        f.setframerate(cs["rate"]); f.setsampwidth(cs["w"]); f.setnchannels(cs["ch"]); f.writeframes(cs["data"])
+                    # the files replace, in place and with the same size and time stamps (cp -p, rsync -t), files that were split a moment ago
+                    for payload in (bytes(reversed(cs["data"])), cs["data"]):
+                        open(raw_p, "wb").write(payload)
+                        with wave.open(wav_p, "wb") as f:
+                            f.setframerate(cs["rate"]); f.setsampwidth(cs["w"]); f.setnchannels(cs["ch"]); f.writeframes(payload)
+                        os.utime(raw_p, (1700000000, 1700000000)); os.utime(wav_p, (1700000000, 1700000000))
+                        if payload is not cs["data"]:
+                            impl_split(au, raw_p, cs); impl_split(au, wav_p, cs)
                     for how, inp, extra in (("raw file, large_file=True", raw_p, dict(large_file=True)), ("raw file", raw_p, {}),
                                             ("wav file, large_file=True", wav_p, dict(large_file=True)), ("wav file", wav_p, {}),
                                             ("AudioRegion that itself carries a start time", None, {}), ("standard input that is a pipe fed in bursts", "-", {})):
